@@ -53,9 +53,9 @@ def to_py(m, term, depth=0):
     if k == z3.Z3_DATATYPE_SORT:
         name = srt.name()
         cname = v.decl().name()
-        if name == 'NoneT' or cname == 'none':
+        if name == 'NoneT' or cname.startswith('none_'):
             return None
-        if cname == 'some':
+        if cname.startswith('some_'):
             return to_py(m, v.arg(0), depth + 1)
         if name.startswith('T_'):
             return tuple(to_py(m, v.arg(i), depth + 1) for i in range(v.num_args()))
@@ -64,7 +64,7 @@ def to_py(m, term, depth=0):
             arr = srt.accessor(0, 0)(v)
             return [to_py(m, z3.Select(arr, i), depth + 1) for i in range(max(0, min(n, 64)))]
         if name.startswith('R_'):
-            return {srt.accessor(0, i).name(): to_py(m, srt.accessor(0, i)(v), depth + 1)
+            return {srt.accessor(0, i).name().split('__')[0]: to_py(m, srt.accessor(0, i)(v), depth + 1)
                     for i in range(srt.constructor(0).arity())}
     return str(v)
 
